@@ -41,6 +41,7 @@ TRUSTED_BASE = [
     "read_neighbors (C05) supplies cnlist: contract = first min(cn,Nmax) zero-based ids of each row",
     "S2: g ln g at g = 0 is NaN in numpy but 0 in ℝ (Real.log 0 = 0): inputs whose smeared g has a zero (or no kept neighbour) are excluded and counted",
     "gyration_tensor returns complex128 numbers with zero imaginary part when np.linalg.eig meets a degenerate spectrum; compared by real part, imaginary part required ≤1e-9, counted",
+    "translator/gens/localorder.py (AST walkers + expression printer of pms2lean) regenerates Pms/GenR/LocalOrder.lean; its output is consumed by the C17_src_* theorems; the recentring statement of gyration_tensor is deliberately not pinned (C18)",
     "hand-written model Pms/Model/LocalOrder.lean tied to the four source files by harness/corr/C17.py; mixed evaluation (decisions in ℚ, values in Float) is part of the harness trust",
 ]
 
